@@ -56,6 +56,6 @@ C5AfterAck(c, a, llen, wnd, t) ==
      ELSE IF acked = c.una /\ llen = 0 /\ outstanding
      THEN [c EXCEPT !.dupL = @ + 1, !.acks = @ + 1, !.dupS = strict, !.lastWnd = wnd, !.ackedData = TRUE,
                     !.mayRetx = (@ \/ c.dupL + 1 = 3),
-                    !.needRetx = IF strict = 3 /\ acked > c.recover THEN acked ELSE @]
+                    !.needRetx = IF strict = 3 /\ acked >= c.recover THEN acked ELSE @]
      ELSE [c EXCEPT !.dupS = 0, !.lastWnd = wnd, !.ackedData = (@ \/ c.sent # {})]
 ====
